@@ -155,9 +155,14 @@ class Cron(addons.AddonMainTask, block.SBlock):
                     + SEC_PER_MIN*(wakeup.minute - nowt.minute)
                     + (wakeup.second - nowt.second)
                     + (wakeup.microsecond - nowt.microsecond)/ 1_000_000.0)
-                if nowt.hour == 23 and wakeup.hour == 0:
-                    # wrap around midnight (relying on hourly wakeups in SET24)
+                # wrap around midnight (relying on hourly wakeups in SET24:
+                # the wakeup time is never more than an hour away)
+                if sleeptime < -SEC_PER_DAY / 2:
+                    # before midnight, the wakeup time is after midnight
                     sleeptime += SEC_PER_DAY
+                elif sleeptime > SEC_PER_DAY / 2:
+                    # already after midnight, but the wakeup time was before midnight
+                    sleeptime -= SEC_PER_DAY
                 # sleeptime: negative = after the alarm time; positive = before the alarm time
                 if step == 0:
                     self.log_debug("sleep until wakeup: %.3f sec", sleeptime)
